@@ -288,7 +288,8 @@ pub fn run(tier: Tier, shard: Shard, rep: &mut Report) {
         2 x <=2-op program and every 3 x 1-op triple at bound 2, curated at bound 3); every sequential history of <= 3 operations from \
         {set, put, get, touch, ensure, set_temp_file, put_temp_file} and five writer/reader programs again with values of 0 B and 3 x 8 KiB and \
         with handles built with auto_sync(false) (neither may change an answer); set/put of values staged in the cache's own temp_dir(), a minute \
-        or two hours old, with the write's maintenance firing or not: an acknowledged write is what a later get reads, a failed one changed nothing. Each execution's call/return history (stamped in \
+        or two hours old, with the write's maintenance firing or not: an acknowledged write is what a later get reads, a failed one changed nothing; \
+        and get/touch/put/set with each call failing in each plausible way: the failure is reported or the answer is the specification's. Each execution's call/return history (stamped in \
         scheduler steps; ensure decomposed into lookup / put / lookup) is checked by Wing-Gong search against the register-with-put \
         specification. Non-trivial = execution with at least one preemption; outcomes = distinct (results, final contents)."
         .into();
@@ -321,6 +322,8 @@ pub fn run(tier: Tier, shard: Shard, rep: &mut Report) {
     }
     crate::run::reset_env();
     staged_source_section(shard, rep);
+    crate::run::reset_env();
+    faulted_answers_section(shard, rep);
 }
 
 /// Values staged in the cache's own temporary directory (the documented workflow), young or already older than the
@@ -452,7 +455,48 @@ fn staged_source_section(shard: Shard, rep: &mut Report) {
     }
 }
 
+/// The answers of get, touch, put and set on a plain cache when one call of the operation fails (every call, every
+/// plausible errno): the operation reports the failure, or answers as the register specification says (a present key
+/// is never reported absent, an acknowledged write took effect).  Absence errnos on the key's own probe excepted.
+fn faulted_answers_section(shard: Shard, rep: &mut Report) {
+    use crate::props::c02::fault_free;
+    use crate::props::c18::{fault_run, plausible};
+    use crate::props::scn::Scn;
+    let mut no = 0u64;
+    for pre in ["empty", "present"] {
+        for op in ["get", "touch", "put", "set", "put_temp_file", "set_temp_file"] {
+            let scn = Scn { front: "plain".into(), pre: pre.into(), op: op.into() };
+            let (n, trace, _res) = fault_free(&scn);
+            for k in 0..n {
+                for a in plausible(&trace[k], true) {
+                    no += 1;
+                    if !shard.mine(no) {
+                        continue;
+                    }
+                    rep.evaluations += 1;
+                    rep.states += 1;
+                    rep.traces += 1;
+                    rep.count("faulted_answer_cases", 1);
+                    for (sig, msg) in fault_run(&scn, &[(k as u64, a)], &trace, rep) {
+                        if matches!(sig.as_str(), "wrong-value" | "success-without-effect" | "unexpected-result") {
+                            rep.violation(
+                                format!("history:{}-under-fault", sig),
+                                format!("{} with call {} ({}) failing {:?}: {}", scn.to_json(), k, trace[k].func, a, msg),
+                                serde_json::json!({"faulted_answers_section": true}),
+                            );
+                        }
+                    }
+                }
+            }
+        }
+    }
+}
+
 pub fn replay(case: &Value, rep: &mut Report) {
+    if case.get("faulted_answers_section").is_some() {
+        faulted_answers_section(Shard { index: 0, count: 1 }, rep);
+        return;
+    }
     if case.get("staged_source_section").is_some() {
         staged_source_section(Shard { index: 0, count: 1 }, rep);
         return;
